@@ -42,14 +42,17 @@ Proof.
     apply Z.ltb_ge in L. lia.
 Qed.
 
-Definition ab_range (rec : search_fn) : Prop :=
-  forall b d ply a be n s v s', 0 <= ply <= M -> a <= M -> - M <= be ->
+(* [L] bounds the ply: mate scores -(M - ply) stay within [-M, M] as long as 0 <= ply <= 2M *)
+Definition ab_range (L : Z) (rec : search_fn) : Prop :=
+  forall b d ply a be n s v s', 0 <= ply <= L -> a <= M -> - M <= be ->
     rec b d ply a be n s = Ok (v, s') -> - M <= v <= M.
 
 Section Node.
+Variable L : Z.
+Hypothesis HL : L + NULL_PLY_OFFSET <= 2 * M.
 Variable rec : search_fn.
 Variable qrec : q_fn.
-Hypothesis Hrec : ab_range rec.
+Hypothesis Hrec : ab_range (L + NULL_PLY_OFFSET) rec.
 Hypothesis Hq : q_range qrec.
 Variable b : BoardState.
 
@@ -57,7 +60,7 @@ Lemma leave_value v s v' s' : leave b v s = Ok (v', s') -> v' = v.
 Proof. unfold leave. intros H; inversion H; reflexivity. Qed.
 
 (* loop invariant: alpha and best within range, beta not below it *)
-Lemma ab_loop_range depth ply beta : 0 <= ply < M -> forall ms alpha best s v s',
+Lemma ab_loop_range depth ply beta : 0 <= ply <= L -> forall ms alpha best s v s',
   - M <= alpha <= M -> - M <= beta -> - M <= best <= M ->
   ab_loop rec b depth ply beta ms alpha best s = Ok (v, s') -> - M <= v <= M.
 Proof.
@@ -65,10 +68,10 @@ Proof.
   - rewrite (leave_value _ _ _ _ H). exact Hbest.
   - destruct (insert_into_cur_line s ply m) as [s1| |]; try discriminate.
     destruct (rec m (depth - 1) (ply + 1) (- alpha - 1) (- alpha) true s1) as [[v1 s2]| |] eqn:E2; try discriminate.
-    assert (R1 : - M <= v1 <= M) by (eapply Hrec; [| | |exact E2]; lia).
+    assert (R1 : - M <= v1 <= M) by (eapply Hrec; [| | |exact E2]; unfold NULL_PLY_OFFSET; lia).
     destruct ((alpha <? - v1) && (- v1 <? beta)).
     + destruct (rec m (depth - 1) (ply + 1) (- beta) (- alpha) true s2) as [[v2 s3]| |] eqn:E3; try discriminate.
-      assert (R2 : - M <= v2 <= M) by (eapply Hrec; [| | |exact E3]; lia).
+      assert (R2 : - M <= v2 <= M) by (eapply Hrec; [| | |exact E3]; unfold NULL_PLY_OFFSET; lia).
       assert (A2 : - M <= (if alpha <? - v2 then - v2 else alpha) <= M) by (destruct (alpha <? - v2); lia).
       destruct (best <? - v2).
       * destruct (beta <=? - v2).
@@ -89,25 +92,25 @@ Proof.
 Qed.
 
 Lemma ab_moves_range depth ply alpha beta s v s' :
-  0 <= ply < M -> - M <= alpha <= M -> - M <= beta ->
+  0 <= ply <= L -> - M <= alpha <= M -> - M <= beta ->
   ab_moves zt osort rec b depth ply alpha beta s = Ok (v, s') -> - M <= v <= M.
 Proof.
   intros Hp Ha Hb H. unfold ab_moves in H.
   destruct (generate_moves zt b AllMoves) as [|g0 gs].
-  { destruct (is_check b (to_move b)); rewrite (leave_value _ _ _ _ H); lia. }
+  { unfold NULL_PLY_OFFSET in HL. destruct (is_check b (to_move b)); rewrite (leave_value _ _ _ _ H); lia. }
   destruct (rank_moves s ply (g0 :: gs)) as [ranked| |]; try discriminate.
   destruct (do_sort osort ranked s) as [sorted s1].
   destruct sorted as [|m0 rest]; [discriminate|].
   destruct (insert_into_cur_line s1 ply m0) as [s2| |]; try discriminate.
   set (s3 := if negb (order_heuristic m0 =? POS_INF) then set_principle_variation s2 else s2) in *.
   destruct (rec m0 (depth - 1) (ply + 1) (- beta) (- alpha) true s3) as [[v0 s4]| |] eqn:E4; try discriminate.
-  assert (R0 : - M <= v0 <= M) by (eapply Hrec; [| | |exact E4]; lia).
+  assert (R0 : - M <= v0 <= M) by (eapply Hrec; [| | |exact E4]; unfold NULL_PLY_OFFSET; lia).
   destruct ((alpha <? - v0) && (beta <=? - v0)); [rewrite (leave_value _ _ _ _ H); lia|].
   destruct (alpha <? - v0); (eapply ab_loop_range; [exact Hp| | | |exact H]); lia.
 Qed.
 
 Lemma ab_body_range depth ply alpha beta allow_null s v s' :
-  0 <= ply < M -> alpha <= M -> - M <= beta ->
+  0 <= ply <= L -> alpha <= M -> - M <= beta ->
   ab_body zt osort rec qrec b depth ply alpha beta allow_null s = Ok (v, s') -> - M <= v <= M.
 Proof.
   intros Hp Ha Hb H. unfold ab_body in H.
@@ -116,6 +119,7 @@ Proof.
   set (depth' := if depth =? 0 then depth + 1 else depth) in *.
   set (alpha' := Z.max alpha (- MATE_SCORE + ply)) in *.
   set (beta' := Z.min beta (MATE_SCORE - ply)) in *.
+  assert (HL' : ply <= 2 * M) by (unfold NULL_PLY_OFFSET in HL; lia).
   assert (Ha' : - M <= alpha' <= M) by (unfold alpha'; lia).
   assert (Hb' : - M <= beta') by (unfold beta'; lia).
   destruct (beta' <=? alpha'); [rewrite (leave_value _ _ _ _ H); exact Ha'|].
@@ -123,7 +127,8 @@ Proof.
   - destruct (rec (with_to_move b (opposite (to_move b))) (depth' - NULL_REDUCTION) (ply + NULL_PLY_OFFSET)
                   (- beta') (- beta' + 1) false s) as [[vn sn]| |] eqn:EN; try discriminate.
     assert (Rn : - M <= vn <= M).
-    { eapply Hrec; [| | |exact EN]; unfold NULL_PLY_OFFSET; try lia. unfold beta'. lia. }
+    { assert (B1 : beta' <= M) by (unfold beta'; lia).
+      eapply Hrec; [| | |exact EN]; unfold NULL_PLY_OFFSET in *; lia. }
     destruct (beta' <=? - vn) eqn:C.
     + rewrite (leave_value _ _ _ _ H). apply Z.leb_le in C. lia.
     + eapply ab_moves_range; [exact Hp|exact Ha'|exact Hb'|exact H].
@@ -132,12 +137,21 @@ Qed.
 
 End Node.
 
-(* the unlimited search: ply is bounded by the array size (a larger ply is a Panic in rank_moves, and
-   the null-move offset keeps it below MATE_SCORE in any case) *)
+(* the unlimited search never returns a value beyond the mate magnitude *)
 Theorem alpha_beta_range fuel :
-  forall b d ply a be n s v s', 0 <= ply < M - NULL_PLY_OFFSET -> a <= M -> - M <= be ->
-    alpha_beta zt osort None fuel b d ply a be n s = Ok (v, s') -> - M <= v <= M.
+  ab_range (2 * M - NULL_PLY_OFFSET * Z.of_nat fuel) (alpha_beta zt osort None fuel).
 Proof.
-Abort.
+  induction fuel as [|f IH]; intros b d ply a be n s v s' Hp Ha Hb H; cbn [alpha_beta] in H; [discriminate|].
+  unfold out_of_time in H. cbn match in H.
+  set (s2 := with_maxply (node_searched (with_clock s (clock s + 1)%N))
+                         (Z.max (max_ply (node_searched (with_clock s (clock s + 1)%N))) ply)) in *.
+  destruct (is_threefold_repetition (table s2) b).
+  - inversion H; subst. unfold MATE_SCORE. lia.
+  - eapply (ab_body_range (2 * M - NULL_PLY_OFFSET * Z.of_nat (S f)) ltac:(unfold NULL_PLY_OFFSET; lia)
+                          (alpha_beta zt osort None f) (quiesce zt osort f));
+      [|apply quiesce_range| | | |exact H]; try assumption.
+    replace (2 * M - NULL_PLY_OFFSET * Z.of_nat (S f) + NULL_PLY_OFFSET) with (2 * M - NULL_PLY_OFFSET * Z.of_nat f)
+      by (unfold NULL_PLY_OFFSET; lia). exact IH.
+Qed.
 
 End S.
